@@ -150,6 +150,16 @@ def main(args):
                 if also:
                     subj = subj + f" (together with later fix(es) {', '.join(also)} on the same lines)"
                 rc, out = run_check(pid, repo)
+                if "-build.log" in out:
+                    # later fixes build on this one (e.g. use a helper it introduced): revert every later fix, newest first, then this one
+                    shutil.rmtree(repo, ignore_errors=True)
+                    repo = make_copy()
+                    also = [h2 for h2 in later_fixes(h) if revert(h2)]
+                    if not revert(h):
+                        results.append((name, "skip", f"`{subj}`: cannot be reverted on its own or under its later fixes"))
+                        continue
+                    subj = subj.split(" (together")[0] + f" (together with all later fixes {', '.join(also)}: they build on it)"
+                    rc, out = run_check(pid, repo)
                 fails = [l.strip() for l in out.splitlines() if l.strip().startswith("FAIL")]
                 hit = [l for l in fails if any(k in l for k in keys)]
                 if rc == 1 and hit:
